@@ -92,6 +92,12 @@ def check(ctx, rep):
              "parser library's interface (feed, close, reset, handle_* ...) - the compiler would call the mix-in's method and the parser "
              "would never see the call (text still buffered at the end of the document is lost)", floor=1)
     library_shadow_obligations(ctx, rep, "R18f")
+    rep.rule("R18g", "= R17m: only a statement that says `global` defines a global - every other tal:define statement is local to its element and "
+             "gone from the caller's context afterwards", floor=2)
+    from .c17 import define_evaluation_obligations
+    tal_mod = prog.modules.get("simpletal.simpleTAL")
+    if tal_mod is not None:
+        define_evaluation_obligations(ctx, rep, "R18g", tal_mod)
     rep.rule("R18e", "context pushes are all-or-nothing: after a method of the context has pushed a frame it calls nothing that can fail on the "
              "caller's objects (the interpreter pops only what it knows was pushed)", floor=1)
     rep.assume("simpleTALUtils (macro expansion utility) is not used by template expansion and is out of scope")
